@@ -1,4 +1,5 @@
 import RxProofs.Lemmas.DispC26A
+import RxProofs.Lemmas.DispNest
 /-!
 # C26 — container disposables dispose each held item exactly once
 
@@ -147,7 +148,54 @@ theorem sad_set_when_assigned_raises (s : ASh) (c v : Nat) (p : List AOp) (hc : 
     r.2 = (.idle, p) ∧ r.1.current = some c ∧ r.1.cnt = s.cnt ∧ r.1.log = s.log ++ [.lock 0, .raised] := by
   simp [sadStep, hc]
 
+/-! ## Nested containers under threads: CompositeDisposable ∋ SerialDisposable ∋ leaves (`Disp.nStep`) -/
+
+/-- **nested_leaf_disposed_exactly_once.** Any number of threads calling `composite.dispose()`,
+`composite.remove(serial)`, `serial.dispose()` and `serial.disposable = leaf` in any order and under any schedule
+(the serial's own `dispose()` runs nested on whichever thread took it out of the composite, outside the composite's
+lock).  When all threads have finished and some thread called `composite.dispose()`: the composite is disposed,
+it called `serial.dispose()` exactly once, the serial is disposed, and every leaf ever assigned to the serial —
+before or after — has been disposed exactly once per assignment. -/
+theorem nested_leaf_disposed_exactly_once (progs : List (List NOp)) (sched : List Nat) (i : Nat)
+    (hq : nQuiet ((nInit progs).run nStep sched)) (hd : 0 < wsum (fun p => p.count NOp.dispC) progs) :
+    let s := (nInit progs).run nStep sched
+    s.sh.cDisposed = true ∧ s.sh.viaC = 1 ∧ s.sh.sDisposed = true ∧
+    s.sh.cnt i = wsum (fun p => p.count (NOp.setS i)) progs := by
+  intro s
+  have h : NInv (nTotalSets progs) (nTotalDispC progs) s := nInv_run progs sched
+  obtain ⟨z1, z2, z3, z4⟩ := nQuiet_zero s hq i
+  have hc := h.calls; rw [z4] at hc
+  simp only [nTotalDispC] at hc
+  have hcd : s.sh.cDisposed = true := h.ccall (by omega)
+  have hhas := h.cdis hcd
+  have ho := h.once; rw [z2, hhas] at ho
+  have hv : s.sh.viaC = 1 := by simpa using ho
+  have hsd := h.via (by omega)
+  have hcur := h.sdis hsd
+  have hl := h.leaf i; rw [z1, hcur] at hl
+  have hs := h.sets i; rw [z3] at hs
+  simp only [nTotalSets] at hs
+  exact ⟨hcd, hv, hsd, by simp at hl; omega⟩
+
+/-- **nested_never_twice.** In every reachable state of the nested system: the composite has called
+`serial.dispose()` at most once, and the disposals of a leaf never exceed its assignments that are no longer held. -/
+theorem nested_never_twice (progs : List (List NOp)) (sched : List Nat) (i : Nat) :
+    let s := (nInit progs).run nStep sched
+    s.sh.viaC ≤ 1 ∧ s.sh.cnt i + s.sh.sCurrent.toList.count i ≤ s.sh.given i ∧
+    s.sh.given i ≤ wsum (fun p => p.count (NOp.setS i)) progs := by
+  intro s
+  have h : NInv (nTotalSets progs) (nTotalDispC progs) s := nInv_run progs sched
+  have a := h.once; have b := h.leaf i; have c := h.sets i
+  simp only [nTotalSets] at c
+  exact ⟨by omega, by omega, by omega⟩
+
 /-! ## Non-vacuity -/
+
+/-- nested: thread 0 disposes the composite, thread 1 assigns leaf 1 over leaf 0, thread 2 disposes the serial
+directly; thread 0's nested `serial.dispose()` arrives last and finds it already disposed -/
+example : let s := (nInit [[.dispC], [.setS 0, .setS 1], [.dispS]]).run nStep [1, 0, 0, 1, 2, 1, 2, 0]
+    nQuiet s ∧ s.sh.cnt 0 = 1 ∧ s.sh.cnt 1 = 1 ∧ s.sh.viaC = 1 ∧ s.sh.cDisposed = true := by decide
+
 
 /-- Composite, three threads: `add 1` races with `dispose` (pre-check passed before the add, lock block after it)
 and a `remove 0` that passed its pre-check before the disposal: everything is disposed exactly once. -/
